@@ -18,7 +18,7 @@ macro_rules! n16 {
     };
 }
 /// (the last two are 264 and 1032 characters long: environment variable names have no length limit to speak of)
-pub const NAMES: [&str; 12] = ["LvA", "LvAB", "_lvx", "lv.1", "élv1", "LvZ9", "Lv\u{663}x", "Lv\u{b2}", "\u{2167}Lv", "\u{663}", concat!("Lv_long_", n16!(n16!("n"))), concat!("Lv_LONG_", n16!(n16!("NnNn")))];
+pub const NAMES: [&str; 14] = ["Q", "z", "LvA", "LvAB", "_lvx", "lv.1", "élv1", "LvZ9", "Lv\u{663}x", "Lv\u{b2}", "\u{2167}Lv", "\u{663}", concat!("Lv_long_", n16!(n16!("n"))), concat!("Lv_LONG_", n16!(n16!("NnNn")))];
 const VALUES: [&str; 12] = ["val", "", "{", "}", "ENV{LvAB}", "LvAB}", "sub/dir", "ü", "x y", "ENV{LvA}{", "/abs/x", "/"];
 const LITERALS: [&str; 14] = ["a", "log", "é", " ", "-", ".", "_", "$", "{", "}", "$ENV", "$ENV{", "ENV{", "$$"];
 const MALFORMED: [&str; 10] = ["$ENV{}", "$ENV{.a}", "$ENV{-a}", "$ENV{$ENV{LvA}}", "$ENV{Lv-A}", "$ENV{Lv A}", "$ENV{Lv$A}", "$ENV{LvA", "$ENV{LvA/x}", "$ENV{ }"];
@@ -173,7 +173,7 @@ pub fn check_e2e(tmp: &Path, case: &Case, obs: &mut Obs) -> CaseResult {
         obs.class("not-filesystem-safe(skipped)");
         return Ok(());
     }
-    for which in 0..8 {
+    for which in 0..9 {
         let root = scratch(tmp, "c19");
         let given = format!("{}/{}", root.display(), case.path);
         if which == 3 || which == 4 {
@@ -197,6 +197,16 @@ pub fn check_e2e(tmp: &Path, case: &Case, obs: &mut Obs) -> CaseResult {
                 4 => {
                     let policy = make_policy(&root.join("unused"), &TrigSpec::Size(1 << 40), &RollSpec::Delete).map_err(|e| e.to_string())?;
                     build_appender(Path::new(&given), false, &None, policy).map_err(|e| e.to_string())?;
+                }
+                8 => {
+                    // the index comes first and the generated path (whose references may expand to text with '/') after
+                    // it, all in what is written as one file name: window of 3, four rolls
+                    let roller = FixedWindowRoller::builder().build(&format!("{}/arch/{{}}.{}", root.display(), case.path), 3).map_err(|e| e.to_string())?;
+                    for i in 0..4 {
+                        let src = root.join("rolled-src");
+                        std::fs::write(&src, format!("roll {}", i)).map_err(|e| e.to_string())?;
+                        roller.roll(&src).map_err(|e| e.to_string())?;
+                    }
                 }
                 7 => {
                     // index in a directory component below the expanded path, window of 3, four rolls
@@ -230,7 +240,7 @@ pub fn check_e2e(tmp: &Path, case: &Case, obs: &mut Obs) -> CaseResult {
             }
             Ok(())
         });
-        let what = ["FileAppender", "RollingFileAppender", "FixedWindowRoller", "FileAppender(truncate mode)", "RollingFileAppender(truncate mode)", "kind: file (configuration file)", "kind: rolling_file (configuration file)", "FixedWindowRoller (index in a directory, 4 rolls)"][which];
+        let what = ["FileAppender", "RollingFileAppender", "FixedWindowRoller", "FileAppender(truncate mode)", "RollingFileAppender(truncate mode)", "kind: file (configuration file)", "kind: rolling_file (configuration file)", "FixedWindowRoller (index in a directory, 4 rolls)", "FixedWindowRoller (index before the path, 4 rolls)"][which];
         let res = match r {
             Err(p) => {
                 let _ = std::fs::remove_dir_all(&root);
@@ -252,10 +262,11 @@ pub fn check_e2e(tmp: &Path, case: &Case, obs: &mut Obs) -> CaseResult {
         if !fs_safe(&want_file) {
             continue;
         }
-        if which == 7 {
+        if which == 7 || which == 8 {
             // archives 0..2 below the expanded location, newest first, nothing anywhere else
             // (the roller replaces every "{}" of its pattern - also one inside the given path - by the index before expanding)
-            let at = |i: usize| expand_ref(&format!("{}/{{}}/app.log", case.path).replace("{}", &i.to_string()), &|name: &str| lookup_var(case, name));
+            let pat = if which == 7 { format!("{}/{{}}/app.log", case.path) } else { format!("arch/{{}}.{}", case.path) };
+            let at = |i: usize| expand_ref(&pat.replace("{}", &i.to_string()), &|name: &str| lookup_var(case, name));
             let base = at(0);
             if (0..3).any(|i| !fs_safe(&at(i))) {
                 continue;
@@ -311,7 +322,7 @@ pub fn replay(part: &str, case: serde_json::Value) -> Option<CaseResult> {
 pub fn meta() -> EvidenceMeta {
     EvidenceMeta {
         level: "exploration",
-        rule: "cases = paths built as token sequences (literal ASCII/non-ASCII text, spaces, stray '$', '{', '}', '$ENV', '$ENV{', well-formed references to a pool of twelve variables (two with names of 264 and 1032 characters) (names incl. '.', '_' first, non-ASCII letters, non-ASCII decimal digits / letter numbers / other numbers) each set or unset per case, repeated and adjacent references, malformed references: empty name, illegal first/inner character, nested, missing brace at end or before '/') with '$'-free adversarial values (empty, braces, 'ENV{LvAB}', 'LvAB}', sub-directories, non-ASCII); oracle: (bulk, guarded hook) expansion == the harness's single left-to-right pass in which substituted text is never rescanned, no panic; (end-to-end, public API) FileAppender::build, RollingFileAppender::build, the same two through a YAML configuration file and the default deserializers, and FixedWindowRoller::roll on a filesystem-safe path under a fresh directory create exactly the file at the reference location and no other regular file, and in truncate mode empty the pre-existing file at that location. non-trivial = a substituted reference together with a construct left verbatim, or a value containing braces, or a multi-byte variable name".into(),
+        rule: "cases = paths built as token sequences (literal ASCII/non-ASCII text, spaces, stray '$', '{', '}', '$ENV', '$ENV{', well-formed references to a pool of fourteen variables (two of a single ASCII letter, two with names of 264 and 1032 characters) (names incl. '.', '_' first, non-ASCII letters, non-ASCII decimal digits / letter numbers / other numbers) each set or unset per case, repeated and adjacent references, malformed references: empty name, illegal first/inner character, nested, missing brace at end or before '/') with '$'-free adversarial values (empty, braces, 'ENV{LvAB}', 'LvAB}', sub-directories, non-ASCII); oracle: (bulk, guarded hook) expansion == the harness's single left-to-right pass in which substituted text is never rescanned, no panic; (end-to-end, public API) FileAppender::build, RollingFileAppender::build, the same two through a YAML configuration file and the default deserializers, and FixedWindowRoller::roll on a filesystem-safe path under a fresh directory create exactly the file at the reference location and no other regular file, and in truncate mode empty the pre-existing file at that location. non-trivial = a substituted reference together with a construct left verbatim, or a value containing braces, or a multi-byte variable name".into(),
         assumptions: vec!["values are '$'-free (the statement's domain)".into(), "environment mutated between cases: one driver thread per process".into()],
         mutants_caught: vec![],
     }
